@@ -750,4 +750,25 @@ theorem T_C11_RH_is_validator (H : Hex Rat) (h : H.RH) : rightHanded (H.toList.m
     simp only [P3.triple, P3.dot, P3.cross, P3.sub] at j0 j1 j2 j3 j4 j5 j6 j7 <;>
     assumption
 
+/-! ## Part G — joints: one construction for every branch count -/
+
+/-- the hand model `jointBlocks n` / `jointChopNodes n` (uniform in `n`) is the assembled `NJoint(n)` probe, vertex
+    number by vertex number, with its chop dispatch, for every branch count of the probe table (2..6); other
+    branch counts are compared on every generated NJoint case (request `c11.joint`) -/
+theorem T_C11_joint_model_matches_probes : ∀ n ∈ [2, 3, 4, 5, 6], jointMatchesProbe n = true := by decide +kernel
+
+/- Full statement (not proved): `∀ n ≥ 2, writeOk (jointBlocks n halfQuads) (jointChopNodes n) = true` — the three
+   chop calls of a joint reach every axis for every number of branches.  Missing: the induction over the branch index
+   (shared-wire lemmas for the 12 blocks of a branch and its two mitre faces, as `T_C11_ring` has for a ring segment).
+   Proved part: every branch count from 2 to 12 on the uniform model, by evaluation. -/
+theorem T_C11_joint_choppable_upto12_partial :
+    ∀ n ∈ [2, 3, 4, 5, 6, 7, 8, 9, 10, 11, 12], writeOk (jointBlocks n halfQuads) (jointChopNodes n) = true := by
+  decide +kernel
+
+/-- the model has 12 blocks per branch and 23 n + 5 vertices (17 bottom points per branch, 6 per mitre face, 5 on the
+    common axis), for the same branch counts -/
+theorem T_C11_joint_counts_partial : ∀ n ∈ [2, 3, 4, 5, 6, 7, 8, 9, 10, 11, 12],
+    (jointBlocks n halfQuads).length = 12 * n ∧ vertexBound (jointBlocks n halfQuads) = 23 * n + 5 := by
+  decide +kernel
+
 end CBV.C11
